@@ -42,7 +42,8 @@ Fail(key) == IF SubSeq(key, 1, 3) \in Focus
 Kind(o) == IF o \in DOMAIN kinds THEN kinds[o] ELSE "unknown"
 
 IdleTimer == [st |-> "idle", d |-> 0, t0 |-> 0, why |-> "new",
-              att |-> FALSE, attd |-> 0, attts |-> 0, attrep |-> 0, infire |-> FALSE]
+              att |-> FALSE, attd |-> 0, attts |-> 0, attrep |-> 0, infire |-> FALSE,
+              sn |-> 0, attsn |-> 0]   \* sn: which Schedule* call's closure is the accepted one (e.h numbers the calls)
 
 ObsReset(e) ==
   /\ kinds' = e.kinds /\ cls' = e.cls /\ lim' = e.lim /\ base' = e.dispatched
@@ -137,7 +138,7 @@ ObsSample(e) ==
 
 \* ---- timers (C04) ----
 ObsTSchedB(e) ==
-  /\ tm' = [tm EXCEPT ![e.t].att = TRUE, ![e.t].attd = e.d, ![e.t].attts = e.ts, ![e.t].attrep = e.n]
+  /\ tm' = [tm EXCEPT ![e.t].att = TRUE, ![e.t].attd = e.d, ![e.t].attts = e.ts, ![e.t].attrep = e.n, ![e.t].attsn = e.h]
   /\ UNCHANGED <<kinds, cls, lim, base, ost, ops, csnap, posted, ranp, anomaly, rnext, bad>>
 
 ObsTSchedE(e) ==
@@ -151,12 +152,13 @@ ObsTSchedE(e) ==
                    IF r.attd <= 0
                      THEN [r EXCEPT !.att = FALSE]     \* immediate execution, nothing stays due
                      ELSE [r EXCEPT !.att = FALSE, !.st = IF r.attrep = 1 THEN "rep" ELSE "once",
-                                    !.d = r.attd, !.t0 = r.attts, !.why = "sched"]]
+                                    !.d = r.attd, !.t0 = r.attts, !.why = "sched", !.sn = r.attsn]]
        /\ UNCHANGED <<kinds, cls, lim, base, ost, ops, csnap, posted, ranp, anomaly, rnext, bad>>
 
 ObsTFireB(e) ==
   LET r == tm[e.t] IN
   IF r.att /\ r.attd <= 0 /\ r.st \notin {"once", "rep"} THEN   \* ScheduleOnce(<= 0): runs at once
+     IF e.h # r.attsn THEN Fail("C04/wrong-callback/immediate") ELSE
        /\ ranp' = IF ranp = "" THEN "" ELSE "y"
        /\ UNCHANGED <<kinds, cls, lim, base, ost, ops, csnap, tm, posted, anomaly, rnext, bad>>
   ELSE IF r.st = "closed" THEN Fail("C04/after-close")
@@ -164,6 +166,7 @@ ObsTFireB(e) ==
        Fail(IF r.why = "fired" THEN "C04/double-fire"
             ELSE IF r.why = "cancelled" THEN "C04/after-cancel" ELSE "C04/unscheduled-fire")
   ELSE IF e.ts - r.t0 < r.d THEN Fail("C04/early/" \o r.st)
+  ELSE IF e.h # r.sn THEN Fail("C04/wrong-callback/" \o r.st)   \* the callback of another (rejected, cancelled, older) Schedule* call
   ELSE /\ tm' = [tm EXCEPT ![e.t] =
                    IF r.st = "once" THEN [r EXCEPT !.st = "idle", !.why = "fired", !.infire = TRUE]
                                     ELSE [r EXCEPT !.t0 = e.ts, !.infire = TRUE]]
